@@ -105,9 +105,18 @@ FetchFailed(s, d) ==
   /\ up[s][d] = "none"
   /\ UNCHANGED vars
 
+\* Tor's other reports about a service's descriptor - it was built (CREATED, before its uploads are announced and again
+\* whenever Tor rebuilds it), somebody's fetch of it was started, answered or ignored (REQUESTED, RECEIVED, IGNORE) - are
+\* not uploads either: they decide nothing and what has been counted so far stands.
+Notices == {"CREATED", "REQUESTED", "RECEIVED", "IGNORE"}
+Notice(s, d, k) ==
+  /\ k \in Notices
+  /\ UNCHANGED vars
+
 Next ==
   \/ Reply \/ Refuse
   \/ \E s \in Svcs, d \in Dirs : Upload(s, d) \/ Uploaded(s, d) \/ Failed(s, d) \/ FetchFailed(s, d)
+  \/ \E s \in Svcs, d \in Dirs, k \in Notices : Notice(s, d, k)
 
 Spec == Init /\ [][Next]_vars
 
